@@ -67,6 +67,11 @@ func (x *Exec) evalValue(s *State, env map[ssa.Value]*Val, fr *Frame, in ssa.Val
 		}
 		id := x.fresh(s, "ifc", "Int")
 		s.assume(not(eq(id, "0")))
+		// boxed value: dynamic type tag and payload are functions of the interface value
+		if fnm, ok := x.boxFn(xv.T); ok {
+			s.assume(eq(sx("ifc.dyntag", id), x.c.tagOf(xv.T)))
+			s.assume(eq(sx(fnm, id), x.termOf(s, xv)))
+		}
 		return &Val{T: in.Type(), S: id, Dyn: xv}
 	case *ssa.TypeAssert:
 		return x.typeAssert(s, env, in)
@@ -493,7 +498,7 @@ func (x *Exec) isNilConst(v *Val) bool {
 	if v.Ptr != nil && v.Ptr.Nil == "true" && v.Ptr.Obj == 0 {
 		return true
 	}
-	if _, ok := v.T.Underlying().(*types.Slice); ok && v.SRef == nil && (v.S == "bempty" || strings.HasPrefix(v.S, "(mk_Slc_") && strings.HasSuffix(v.S, " 0 0)") && strings.Contains(v.S, "as const")) {
+	if _, ok := v.T.Underlying().(*types.Slice); ok && v.SRef == nil && (v.S == "bempty" || strings.HasPrefix(v.S, "(mk_Slc_") && strings.HasSuffix(v.S, " 0 0)") && (strings.Contains(v.S, "as const") || strings.Contains(v.S, "zarr!"))) {
 		return true
 	}
 	if _, ok := v.T.Underlying().(*types.Signature); ok && v.S == "0" && v.Clo == nil && v.Fn == nil {
@@ -598,20 +603,28 @@ func (x *Exec) typeAssert(s *State, env map[ssa.Value]*Val, in *ssa.TypeAssert) 
 		return mk(x.zeroVal(s, in.AssertedType), "false")
 	}
 	// unknown dynamic type
-	okc := x.fresh(s, "taok", "Bool")
-	if !in.CommaOk {
-		x.panicIf(s, not(okc), "type_assert")
-	}
+	var okc string
 	var v *Val
 	if _, isIfc := in.AssertedType.Underlying().(*types.Interface); isIfc {
+		okc = x.fresh(s, "taok", "Bool")
 		nv := *xv
 		nv.T = in.AssertedType
 		v = &nv
+	} else if fnm, ok := x.boxFn(in.AssertedType); ok && xv.S != "" {
+		okc = and(not(eq(xv.S, "0")), eq(sx("ifc.dyntag", xv.S), x.c.tagOf(in.AssertedType)))
+		v = x.valOf(s, in.AssertedType, sx(fnm, xv.S))
+		if v.Ptr != nil {
+			// a boxed pointer of the asserted type is non-nil when the assertion succeeds (protobuf oneof wrappers)
+		}
 	} else {
+		okc = x.fresh(s, "taok", "Bool")
 		v = x.freshVal(s, in.AssertedType, "ta")
 		if v.Ptr != nil {
 			v.Ptr.Nil = "false"
 		}
+	}
+	if !in.CommaOk {
+		x.panicIf(s, not(okc), "type_assert")
 	}
 	return mk(v, okc)
 }
@@ -757,8 +770,26 @@ func (x *Exec) makeSlice(s *State, env map[ssa.Value]*Val, in *ssa.MakeSlice) *V
 		content = sx("bzeros", ln)
 	} else {
 		et := T.Underlying().(*types.Slice).Elem()
-		content = fmt.Sprintf("(mk_%s ((as const (Array Int %s)) %s) 0 %s)", srt, x.c.sortOf(et), x.zeroOf(et), ln)
+		content = fmt.Sprintf("(mk_%s %s 0 %s)", srt, x.c.constArr("Int", x.c.sortOf(et), x.zeroOf(et)), ln)
 	}
 	id := x.newObj(s, T, "mk", content, true)
 	return &Val{T: T, SRef: &SRef{Obj: id, Off: "0", Len: ln}}
+}
+
+// boxFn: the payload accessor of interface values holding a value of type T.
+func (x *Exec) boxFn(T types.Type) (string, bool) {
+	if _, isIfc := T.Underlying().(*types.Interface); isIfc {
+		return "", false
+	}
+	srt := x.c.sortOf(T)
+	if _, isMap := T.Underlying().(*types.Map); isMap {
+		return "", false
+	}
+	x.c.P.declare("ifc.dyntag", "(declare-fun ifc.dyntag (Int) Int)")
+	name := "ifc.as." + sanitize(strings.TrimPrefix(strings.ReplaceAll(T.String(), modPath+"/", ""), "*"))
+	if _, isPtr := T.Underlying().(*types.Pointer); isPtr {
+		name += ".ptr"
+	}
+	x.c.P.declare(name, fmt.Sprintf("(declare-fun %s (Int) %s)", name, srt))
+	return name, true
 }
